@@ -205,6 +205,9 @@ func OracleC06(e *Exec) (string, string) {
 
 // ---- C05: signatures ----
 func OracleC05(e *Exec) (string, string) {
+	if e.Accepted() && e.Abs.FormErr {
+		return "accepted-with-unparsable-parameters", "the request parameters are not well-formed form encoding (net/http reports an error), yet the request was accepted: a parameter -- e.g. a non-verifying Signature -- was silently dropped"
+	}
 	if !e.Accepted() || e.Abs.FormErr {
 		return "", ""
 	}
@@ -258,6 +261,14 @@ func OracleC05(e *Exec) (string, string) {
 
 // ---- C02: targets ----
 func OracleC02(e *Exec) (string, string) {
+	// the provider consulted for the reply target is the one registered under exactly the Issuer the request names
+	if e.Abs.Dec != nil && e.Abs.Dec.Issuer != nil {
+		for _, c := range e.Storage().Log() {
+			if c.Op == "GetEntityByID" && len(c.Args) > 0 && c.Args[0] != e.Abs.Dec.Issuer.Text {
+				return "provider-looked-up-under-another-key", fmt.Sprintf("request Issuer %q, storage asked for %q", e.Abs.Dec.Issuer.Text, c.Args[0])
+			}
+		}
+	}
 	reg := map[[2]string]bool{}
 	locs := map[string]bool{}
 	if e.S.Registered {
@@ -321,6 +332,7 @@ func scenariosFor(prop, tier string, r *rand.Rand) []*Scenario {
 		out = append(out, StreamSigned(r, 450*m)...)
 		out = append(out, StreamValid(r, 40*m)...)
 	case "C02":
+		out = append(out, StreamConjuncts(r)...)
 		out = append(out, StreamForeign(r, 250*m)...)
 		out = append(out, StreamBindings(r, 150*m)...)
 		out = append(out, StreamValid(r, 40*m)...)
